@@ -969,3 +969,88 @@ fn nlri_encode_v4v6<B: BufMut>(n: &Nlri, dst: &mut B) -> Result<u16, ()> {
         }
     }
 }
+
+// ---------------------------------------------------------------------------------
+// C03: per-family NLRI decoders on arbitrary bytes
+// ---------------------------------------------------------------------------------
+
+/// one NLRI of `family` from up to N arbitrary bytes: total (Ok or NOTIFICATION), the cursor
+/// never passes the end, an accepted NLRI consumed at least one byte (so the list loop in
+/// decode_nlri_list always makes progress)
+fn nlri_one<const N: usize>(family: Family) -> (bool, usize) {
+    let bytes: [u8; N] = kani::any();
+    let len: usize = kani::any();
+    kani::assume(len <= N);
+    let addpath: bool = kani::any();
+    let is_reach: bool = kani::any();
+    let mut rd = BgpReader::<UpdateCtx>::new(&bytes[..len]);
+    let r = PeerCodec::decode_nlri(family, addpath, is_reach, &mut rd, len);
+    let used = rd.pos;
+    assert!(used <= len);
+    let ok = r.is_ok();
+    if let Ok(p) = &r {
+        assert!(used >= 1);
+        if !addpath {
+            assert!(p.path_id == 0);
+        } else {
+            assert!(used >= 5);
+        }
+        match &p.nlri {
+            Nlri::V4(n) => {
+                assert!(n.mask <= 32);
+                assert!(used == (if addpath { 4 } else { 0 }) + 1 + (n.mask as usize + 7) / 8);
+            }
+            Nlri::V6(n) => {
+                assert!(n.mask <= 128);
+                assert!(used == (if addpath { 4 } else { 0 }) + 1 + (n.mask as usize + 7) / 8);
+            }
+            _ => {}
+        }
+    }
+    core::mem::forget(r);
+    (ok, used)
+}
+
+//@ id=C03 tier=quick cap=900
+//@ fn: bgp::PeerCodec::decode_nlri, bgp::Nlri::decode, bgp::Ipv4Net::decode, bgp::BgpReader
+//@ bound: ALL byte strings of length 0..=9 as one IPv4 unicast NLRI, add-path on/off; unwind 8
+//@ desc: total; prefix length <= 32; bytes consumed = (path id) + 1 + ceil(len/8) >= 1, never past the end
+#[kani::proof]
+#[kani::unwind(8)]
+fn c03_nlri_ipv4() {
+    let (ok, used) = nlri_one::<9>(Family::IPV4);
+    kani::cover!(ok && used == 9);
+    kani::cover!(!ok);
+}
+
+//@ id=C03 tier=quick cap=900
+//@ fn: bgp::PeerCodec::decode_nlri, bgp::Nlri::decode, bgp::Ipv6Net::decode
+//@ bound: ALL byte strings of length 0..=21 as one IPv6 unicast NLRI, add-path on/off; unwind 20
+//@ desc: total; prefix length <= 128; consumption as for IPv4
+#[kani::proof]
+#[kani::unwind(20)]
+fn c03_nlri_ipv6() {
+    let (ok, used) = nlri_one::<21>(Family::IPV6);
+    kani::cover!(ok && used == 21);
+    kani::cover!(!ok);
+}
+
+//@ id=C03 tier=thorough cap=1800 mem=24
+//@ fn: bgp::PeerCodec::decode_nlri, vpn::VpnV4Nlri::decode, labeled::LabeledV4Nlri::decode, rtc::RtcNlri::decode, mpls / rd helpers
+//@ bound: ALL byte strings of length 0..=20 as one VPNv4 / labeled-IPv4 / RTC NLRI (family symbolic among the three), add-path on/off; unwind 24
+//@ desc: total (message or NOTIFICATION, no panic), cursor never passes the end, progress
+#[kani::proof]
+#[kani::unwind(24)]
+#[kani::stub(alloc::fmt::format, stub_format_bgp)]
+fn c03_nlri_vpn_labeled_rtc() {
+    let k: u8 = kani::any();
+    kani::assume(k < 3);
+    let (ok, _used) = match k {
+        0 => nlri_one::<20>(Family::IPV4_VPN),
+        1 => nlri_one::<20>(Family::IPV4_MPLS),
+        _ => nlri_one::<20>(Family::RTC),
+    };
+    kani::cover!(ok && k == 0);
+    kani::cover!(ok && k == 1);
+    kani::cover!(ok && k == 2);
+}
